@@ -16,19 +16,28 @@ bounds = json.load(open(bpath)) if os.path.exists(bpath) else {}
 pb = bounds.setdefault(pid, {})
 keep_out = {k: v for k, v in pb.get("outside_claim", {}).items() if "*" in k}
 slow, out, og = {}, dict(keep_out), {}
+def _undecided(g):
+    # a goal that was already outside the claim stays outside unless the hunt proved it within its short budget
+    return g.get("verdict") in ("sat", "unknown") or (g.get("verdict") == "outside-claim" and g.get("hunt") != "unsat")
+
+
 for k, r in sorted(res.items()):
+    goals = r.get("goals") or []
     if r["status"] == "proved":
+        keep = [g["label"] for g in goals if _undecided(g)]
+        if keep:
+            og[k] = keep
         if r["wall_s"] > limit:
             slow[k] = round(r["wall_s"], 1)
     elif r["status"] == "inconclusive":
-        goals = r.get("goals") or []
-        bad = [g["label"] for g in goals if g.get("verdict") in ("sat", "unknown")]
+        bad = [g["label"] for g in goals if _undecided(g)]
         good = [g for g in goals if g.get("verdict") == "unsat"]
         if goals and bad and good and len(bad) <= max(1, len(goals) // 2) and "exceeded" not in (r.get("reason") or ""):
             og[k] = bad  # the rest of the family stays claimed
-            est = sum(g.get("s") or 0 for g in goals if g.get("verdict") == "unsat") + 0.15 * len(goals) + 0.5
-            if est > limit:
-                slow[k] = round(est, 1)
+            # symbolic execution itself (pruning / merging queries, possibly two encodings) is part of the cost:
+            # a partially claimed family is in the quick tier only if its whole measured run was short
+            if r["wall_s"] > limit:
+                slow[k] = round(r["wall_s"], 1)
         else:
             out[k] = "inconclusive on the pinned tree: " + (r.get("reason") or "")[:160]
 pb["slow"] = slow
